@@ -413,6 +413,26 @@ fn c02(thorough: bool, rng: &mut Rng, out: &mut Out) {
         (0x0100, 1, vec![]),
         (0x0001, 0x10, vec![0x01]),
     ];
+    // frame-in-frame seeds: the data holds the numeric fields of another frame, and the outer header
+    // bytes up to and including the first data byte sum to zero, so that the outer checksum is also
+    // the inner frame's checksum (adversarial for a decoder that resynchronises on a later ':')
+    let mut nested: Vec<(u16, u8, Vec<u8>)> = vec![];
+    for k in 0..(if thorough { 40 } else { 6 }) {
+        let ilen = if k == 0 { 1 } else { rng.range(0, 6) as usize };
+        let idata = if k == 0 { vec![0xFF] } else { rng.bytes(ilen) };
+        let (ia, it) = if k == 0 { (3u16, 2u8) } else { (rng.next() as u16, rng.byte()) };
+        let mut inner = vec![ilen as u8, (ia >> 8) as u8, ia as u8, it];
+        inner.extend_from_slice(&idata);
+        let (oa, ot) = if k == 0 { (0u16, 0u8) } else { (rng.next() as u16, rng.byte()) };
+        let olen = (inner.len() + 1) as u8;
+        let hdr = olen.wrapping_add((oa >> 8) as u8).wrapping_add(oa as u8).wrapping_add(ot);
+        let mut data = vec![0u8.wrapping_sub(hdr)];
+        data.extend_from_slice(&inner);
+        nested.push((oa, ot, data));
+    }
+    let n_nested = nested.len();
+    nested.extend(seeds.drain(..));
+    seeds = nested;
     let nseeds = if thorough { 400 } else { 30 };
     for _ in 0..nseeds {
         let len = if rng.chance(80) { rng.range(0, 20) as usize } else { random_len(rng) };
@@ -422,7 +442,7 @@ fn c02(thorough: bool, rng: &mut Rng, out: &mut Out) {
         seeds.push((0x1234, 0x56, rng.bytes(255)));
         seeds.push((0xFFFF, 0, vec![0xFF; 255]));
     }
-    let nfull = if thorough { 40 } else { 4 };
+    let nfull = n_nested + if thorough { 40 } else { 4 };
     for (k, (a, t, d)) in seeds.iter().enumerate() {
         let okline = format!("ok {:04X} {:02X} {}", a, t, to_hex(d));
         let base = indep_enc(*a, *t, d);
